@@ -135,10 +135,15 @@ CLAIMS = {
              "exception), cross-handler key check on every path that adds an argument, all four container pairs "
              "compared with == and mismatch(); the flag word Groups hands to new member handlers contains hfInGroup "
              "from the constructor on and no update clears the bit (every write evaluated over all combinations of "
-             "the flag bits it mentions), so every member runs the cross-handler key check.",
+             "the flag bits it mentions), so every member runs the cross-handler key check. Which member handles a long "
+             "key is decided by an exhaustive dispatch table: the per-word part of Groups::evalArguments (helpers "
+             "inlined) is evaluated abstractly for two members and every combination of what each holds for the key "
+             "(nothing / the exact key / one / several abbreviation matches) against what a single handler does "
+             "(exact key wins, one abbreviation in total is used, none or several end in an exception).",
         note="trusts clang AST/CFG; per-member identification rules are those of C02; value equality between the "
              "two evaluation paths is not decided",
-        technique="static analysis: sibling agreement + per-iteration must-pass-through on the CFG"),
+        technique="static analysis: sibling agreement + per-iteration must-pass-through on the CFG + exhaustive "
+                  "abstract evaluation of the dispatch (engine B)", also=("engine B (boolshape.py)",)),
     "C09": dict(
         level="other", engine="engine E (effects.py)",
         text="Whole-library effect analysis: every function reachable from the argument-handler API (resolved call "
